@@ -697,8 +697,10 @@ func buildIntrinsics() map[string]*Native {
 		if x.Op == OFFromBits {
 			return ip.TC.Eq(ip.TC.LShr(x.A[0], Const(SBV64, 63)), Const(SBV64, 1))
 		}
-		ip.unsupported("math.Signbit on derived symbolic float")
-		return nil
+		// derived float (NaN aside): negative, or a zero whose reciprocal is negative
+		tc := ip.TC
+		zero, one := ConstF64(0), ConstF64(1)
+		return tc.Or(tc.FLt(x, zero), tc.And(tc.FEq(x, zero), tc.FLt(tc.FDiv(one, x), zero)))
 	})
 	conc2 := func(name string, f func(x, y float64) float64) {
 		reg(name, func(ip *Interp, a []Value) Value {
